@@ -18,7 +18,7 @@ MODES = {
     "lfq": (["lfq_memb", "lfq_mb"], [[]]),
     "defer": (["defer_conc_memb", "defer_conc_mb"], [[]]),
     # proof-only parts (the futex wait / wake families; their events are inside calls replayed by other modes)
-    "futex-gp": ([], [[]]), "futex-callrcu": ([], [[]]), "futex-defer": ([], [[]]), "futex-wq": ([], [[]]), "poll": ([], [[]]),
+    "futex-gp": ([], [[]]), "futex-callrcu": ([], [[]]), "futex-defer": ([], [[]]), "futex-wq": ([], [[]]), "poll": ([], [[]]), "reg": ([], [[]]), "fork": ([], [[]]),
     "lfht": (["lfht_conc"], [[]]),
 }
 
@@ -58,8 +58,10 @@ MODE_THEOREMS = {
                 ("UrcuVerif.Props.SrcSync", lambda n: "SrcSyncQsbr" not in n and ".mb_" not in n)],
     "gp-mb": [("UrcuVerif.Props.SrcRead", lambda n: "_memb_" not in n and "_bp_" not in n and "qsbr" not in n),
               ("UrcuVerif.Props.SrcSync", lambda n: "SrcSyncQsbr" not in n and ".memb_" not in n)],
-    "gp-bp": [("UrcuVerif.Props.SrcRead", lambda n: "_memb_" not in n and "_mb_" not in n and "qsbr" not in n)],
-    "gp-qsbr": [("UrcuVerif.Props.SrcRead", _sel("qsbr")), ("UrcuVerif.Props.SrcSync", _sel("SrcSyncQsbr"))],
+    "gp-bp": [("UrcuVerif.Props.SrcRead", lambda n: "_memb_" not in n and "_mb_" not in n and "qsbr" not in n),
+              ("UrcuVerif.Props.SrcSync2", lambda n: "SrcSync2Qsbr" not in n)],
+    "gp-qsbr": [("UrcuVerif.Props.SrcRead", _sel("qsbr")), ("UrcuVerif.Props.SrcSync", _sel("SrcSyncQsbr")),
+                ("UrcuVerif.Props.SrcSync2", _sel("SrcSync2Qsbr"))],
     "wfs": [("UrcuVerif.Props.SrcStack", lambda n: "lfs" not in n)],
     "lfs": [("UrcuVerif.Props.SrcStack", _sel("lfs"))],
     "wfcq": [("UrcuVerif.Props.SrcQueue", lambda n: "lfq" not in n)],
@@ -68,8 +70,11 @@ MODE_THEOREMS = {
     "futex-gp": [("UrcuVerif.Props.SrcFutex", _sel("wait_gp", "wake_up_gp", "hs_", "qs_", "wait_node", "adaptative", "wait_add"))],
     "futex-callrcu": [("UrcuVerif.Props.SrcFutex", _sel("call_rcu", "cr_", "completion")), ("UrcuVerif.Props.SrcCallRcu", lambda n: True)],
     "futex-defer": [("UrcuVerif.Props.SrcFutex", _sel("defer", "df_"))],
-    "futex-wq": [("UrcuVerif.Props.SrcFutex", _sel(".futex_wait", ".futex_wake_up", "wake_worker_thread")), ("UrcuVerif.Props.SrcWq", lambda n: True)],
+    "futex-wq": [("UrcuVerif.Props.SrcFutex", _sel(".futex_wait", ".futex_wake_up", "wake_worker_thread")), ("UrcuVerif.Props.SrcWq", lambda n: True),
+                 ("UrcuVerif.Props.SrcWq2", lambda n: True)],
     "poll": [("UrcuVerif.Props.SrcPoll", lambda n: True)],
+    "reg": [("UrcuVerif.Props.SrcReg", lambda n: True)],
+    "fork": [("UrcuVerif.Props.SrcFork", lambda n: True)],
     "lfht": [("UrcuVerif.Props.SrcLfht", lambda n: True)],
 }
 
@@ -77,7 +82,8 @@ MODE_THEOREMS = {
 # modules whose builders have reported and which are imported by lean/UrcuVerif.lean
 INTEGRATED = {"UrcuVerif.Props.SrcRead", "UrcuVerif.Props.SrcSync", "UrcuVerif.Props.SrcStack", "UrcuVerif.Props.SrcQueue",
               "UrcuVerif.Props.SrcDefer", "UrcuVerif.Props.SrcFutex", "UrcuVerif.Props.SrcPoll", "UrcuVerif.Props.SrcWq",
-              "UrcuVerif.Props.SrcCallRcu", "UrcuVerif.Props.SrcLfht"}
+              "UrcuVerif.Props.SrcCallRcu", "UrcuVerif.Props.SrcLfht",
+              "UrcuVerif.Props.SrcSync2", "UrcuVerif.Props.SrcWq2", "UrcuVerif.Props.SrcReg", "UrcuVerif.Props.SrcFork"}
 
 
 def mode_theorems(mode):
